@@ -14,10 +14,22 @@ CHECKS = {
          "The application writes a PRF stream and closes while a scripted peer delivers generated ACK/window schedules (stale, shrinking, zero, duplicate x3, silence until RTO) with drawn MSS/window-scale/timestamp options; each emitted segment is checked against the window and MSS delivered so far, the written bytes (also when retransmitted), contiguity, FIN placement and SYN/scaled window fields. Random exploration; 5 hand-made sender mutants are killed by the quick tier.",
          "Trusts vkit::indep codec; peer segments restricted to those whose acceptability is unambiguous so that the learned window is known exactly; keep-alive disabled; MSS<48 clamp accepted as documented design.",
          "DESIGN.md 3/C05"),
+ "C06": ("round-trip PBT per Repr type (emit->parse identity, parse->emit->parse idempotence, buffer-independence) + exhaustive sweeps of small spaces",
+         "One generator per wire Repr type (28 parts) with provisos taken from the code/docs; each case emits into 0x00/0xFF/garbage-prefilled buffers of exactly the declared length (must be byte-identical, must not panic), parses back (must be equal), then mutates the packet and checks parse->emit->parse idempotence for reprs inside the proviso. Exhaustive phases: all 4-bit UDP-NHC port pairs and 8-bit classes, TCP flag/option combinations, IGMP codes, 802.15.4 addressing modes.",
+         "Round-trip oracle is smoltcp against itself by definition of the property; provisos listed in c06.rs; RPL/IPsec reprs not compiled in this feature set.",
+         "DESIGN.md 3/C06"),
+ "C07": ("crash-oracle PBT/fuzz-style generation per view type: random bytes, every truncation, boundary-value field corruption; accessor battery under catch_unwind",
+         "For each of 24 exported Packet/Frame/Header/Option view types: random bytes, valid packets truncated at every offset, and single-field boundary corruptions; on new_checked Ok every accessor applicable to the packet's own message type, the Repr parser and the pretty-printer run under catch_unwind; DNS names drained with an iteration cap. Exhaustive phase over 148 seed packets: every truncation and boundary byte value at every offset < 64.",
+         "Accessor-applicability table follows the accessors' docs and smoltcp's own callers; safe Rust turns out-of-buffer reads into panics; RPL/IPsec views not compiled in.",
+         "DESIGN.md 3/C07"),
  "C14": ("model-based PBT (VecDeque model) + bounded-exhaustive op-sequence enumeration",
          "Random op sequences (<=200 ops, capacities 0..=4096) on RingBuffer and PacketBuffer compared with a VecDeque model after every operation, plus exhaustive enumeration of all op sequences up to depth 4 (quick) / 5 (thorough) over a small alphabet for small capacities. Exploration, not proof: exhaustive only inside the stated small sub-space.",
          "Trusts the VecDeque model and the stated preconditions of the asserted operations; contents of unallocated slots compared only when written through the unallocated interface.",
          "DESIGN.md 3/C14"),
+ "C17": ("table-oracle PBT: one event at a time (ingress single / egress / API / time), allowed-transition table with guards from an independent sequence-space view",
+         "Up to 120 events per case over several connection life cycles; segments drawn around RCV.NXT, window edges, ISS+1, SND.NXT, FIN+1; every observed state change must be an RFC 9293 edge whose guard (exact ISS ack, in-order FIN, ack of own FIN, in-window RST, TIME-WAIT >= 10 s, configured timeout) holds. One open known finding (close() in SYN-RECEIVED).",
+         "Guards are necessary conditions from emitted segments and API calls; not judged while the socket's ISS is unobserved; peer never offers window scaling.",
+         "DESIGN.md 3/C17"),
  "C15": ("exhaustive BFS over reachable states (bounded universe) + model-based PBT",
          "Every reachable assembler state over universe 0..12 (quick) / 0..14 (thorough) is visited and every op with every argument applied to it, compared with a range-list model (refusal only above the limit, refusal leaves state unchanged, offset-0 add_then_remove_front never fails); random sequences over universes up to 4096; whole check repeated on a build with ASSEMBLER_MAX_SEGMENT_COUNT=32.",
          "Trusts the range-list model; BFS assumes tracker state is canonical per range set; universe bounded.",
